@@ -287,6 +287,24 @@ pub fn gen_c03(rng: &mut Rng, thorough: bool, emit: &mut dyn FnMut(ServeCase)) {
         let m = if rng.chance(1, 8) { "HEAD" } else { "GET" };
         emit(range_case(l, h.clone().into_bytes(), m, format!("G:estimate L={} d={} {:?}", l, d, h)));
     }
+    // 3c. small ranges on small entities whose own headers are long: the decision between multipart
+    // and the complete 200 is made on the 80-byte estimate, not on what the parts really cost
+    for hs in ehdr_sets() {
+        for n in 2..=6u64 {
+            for l in [81 * n, 81 * n + 1, 100 * n, 162 * n, 162 * n + 1, 162 * n + 40, 400 * n] {
+                let specs: Vec<(String, Spec)> = (0..n)
+                    .map(|i| {
+                        let a = if i + 1 == n { l - 1 } else { i * (l / n) };
+                        ((if i == 0 { "" } else { " " }).to_string(), Spec::FromTo(a.to_string(), a.to_string()))
+                    })
+                    .collect();
+                let h = render_set(&specs);
+                let mut c = range_case(l, h.clone().into_bytes(), "GET", format!("G:estimate-with-headers L={} n={} ehdrs={} {:?}", l, n, hs.len(), h));
+                c.ent.hdrs = hs.clone();
+                emit(c);
+            }
+        }
+    }
     // 3b. the 413 corner: two giant ranges on a 2^64-1 entity
     emit(range_case(
         U64MAX,
@@ -633,8 +651,12 @@ fn finish_case(mut c: ServeCase, etag: &Option<Tag>, hints: Vec<(u64, Val)>) -> 
 pub fn gen_c04(rng: &mut Rng, thorough: bool, emit: &mut dyn FnMut(ServeCase)) {
     let dates: Vec<Option<i64>> = vec![None, Some(-86400), Some(-1), Some(0), Some(1)];
     let n_lists = if thorough { 40 } else { 3 };
+    // modification times: the usual ones and one an hour ahead of the clock (dates between the clock
+    // and the modification time must still be compared with the modification time itself)
+    let mut mtimes = mtime_variants();
+    mtimes.push(Some((now_secs() + 3600) * 1_000_000_000 + 250_000_000));
     for etag in etag_variants() {
-        for mtime in mtime_variants() {
+        for mtime in mtimes.clone() {
             let lm_s = mtime.map(|m| m / 1_000_000_000).unwrap_or(T0) as i64;
             for ims in &dates {
                 for ius in &dates {
@@ -1126,11 +1148,32 @@ pub fn gen_overflow_corner(rng: &mut Rng, thorough: bool, emit: &mut dyn FnMut(S
     for hs in ehdr_sets() {
         for tail in ["0-0", "5-5,7-7", "-1"] {
             let ntail = tail.matches(',').count() as u64 + 1;
-            for &d in &deltas {
+            for with_if_range in [false, true] {
+              // besides the sampled deltas: the 16 consecutive ones around the point where the true
+              // multipart length (computed here independently, in u128) crosses 2^64 -- with and without
+              // the 9-byte closing delimiter
+              let each: u128 = if with_if_range { 0 } else { hs.iter().map(|(a, b)| (a.len() + b.len() + 4) as u128).sum() };
+              let total_at = |d: u64| -> u128 {
+                  let big_end = l - 1 - 80 * (ntail + 1) - ntail - d;
+                  let mut rs: Vec<(u64, u64)> = vec![(0, big_end)];
+                  match tail { "0-0" => rs.push((0, 0)), "5-5,7-7" => { rs.push((5, 5)); rs.push((7, 7)) } _ => rs.push((l - 1, l - 1)) }
+                  let digits = |n: u64| n.to_string().len() as u128;
+                  rs.iter().map(|(a, b)| 7 + 21 + digits(*a) + 1 + digits(*b) + 1 + digits(l) + 2 + each + 2 + (*b as u128 - *a as u128 + 1)).sum::<u128>() + 9
+              };
+              let mut ds = deltas.clone();
+              let over = total_at(0).saturating_sub(1u128 << 64);
+              if over < 100_000 {
+                  let d0 = over as u64;
+                  for k in 0..16u64 {
+                      let d = (d0 + 12).saturating_sub(k);
+                      if !ds.contains(&d) { ds.push(d); }
+                  }
+              }
+              for &d in &ds {
                 // the estimate is (ntail + 1) * 80 + lens; keep it just below L and move the big range's end
                 let big_end = l - 1 - 80 * (ntail + 1) - ntail - d;
-                for with_if_range in [false, true] {
-                    if !thorough && with_if_range && !rng.chance(1, 3) {
+                {
+                    if !thorough && with_if_range && !rng.chance(1, 3) && deltas.contains(&d) {
                         continue;
                     }
                     let etag = Some(Tag { weak: false, opaque: b"abc".to_vec() });
@@ -1149,6 +1192,7 @@ pub fn gen_overflow_corner(rng: &mut Rng, thorough: bool, emit: &mut dyn FnMut(S
                         emit(finish_case(c, &etag, vec![]));
                     }
                 }
+              }
             }
         }
     }
